@@ -1,4 +1,5 @@
 import Spine.Feature
+import Spine.LocalTreeReact
 import Spine.Generated.EntityLocal
 /-!
 # C07 — facts regenerated from spine/entity_local.go, spine/entity.go on every run (tie b1)
@@ -38,5 +39,49 @@ theorem c07_current_tree_one_feature_per_type_role (evs : List Feat.Ev) :
   have h : currentRecheck = true := by decide
   rw [h]
   exact Feat.c07_one_feature_per_type_role evs
+
+/-! ### round 6: the order of the two events of AddEntity / RemoveEntity (tree change, announcement) -/
+
+/-- the order of "the entity joins / leaves the device's list" and "the notification is written" in the current
+    source of `DeviceLocal.AddEntity` / `DeviceLocal.RemoveEntity`, regenerated on every run (the list field is found
+    by its type, the notification through helpers on the receiver, deferred and explicit unlocks alike) -/
+def currentOrder : LTree.Order :=
+  ⟨Generated.EntityLocal.addEntityChangeBeforeNotify, Generated.EntityLocal.removeEntityChangeBeforeNotify⟩
+
+/-- in the current source the tree changes BEFORE the change is announced, in both operations, and every write to
+    the list of entities happens under a mutex of the device (the change is one event) -/
+theorem c07_tree_changes_before_announcement :
+    currentOrder = ⟨true, true⟩ ∧ Generated.EntityLocal.entityListWritesLocked = true := by decide
+
+/-- hence a detailed-discovery read a subscriber issues from INSIDE the notification (the sender writes
+    synchronously), or any read that falls between the announcement and the end of the call, is answered exactly
+    like a read after the call: for every state, operation and peer -/
+theorem c07_read_inside_notification_current (s : LTree.St) (o : LTree.Op) (p : Nat) :
+    LTree.reactReply currentOrder s o p = (LTree.step (LTree.step s o).1 (.read p)).2 := by
+  rw [c07_tree_changes_before_announcement.1]
+  exact LTree.react_reply_is_read_after s o p
+
+/-- an entity announced as removed is not in the tree such a read meets; an entity announced as added is -/
+theorem c07_announced_removed_not_listed (s : LTree.St) (k : Nat) (hk : k ∈ s.attached) :
+    k ∉ (LTree.treeAtAnnounce currentOrder s (.detach k)).attached :=
+  (LTree.react_removed_not_listed_iff currentOrder s k hk).2 (by decide)
+
+theorem c07_announced_added_listed (s : LTree.St) (k : Nat) (hk : k ∉ s.attached) :
+    k ∈ (LTree.treeAtAnnounce currentOrder s (.attach k)).attached :=
+  (LTree.react_added_listed_iff currentOrder s k hk).2 (by decide)
+
+/-- the order is NECESSARY: with the announcement first, in EVERY state in which the entity is part of the device
+    the read from inside the 'removed' notification still meets it (and dually for 'added') — the regenerated fact
+    above is exactly what the clause needs -/
+theorem c07_announcement_first_refuted (s : LTree.St) (k : Nat) :
+    (k ∈ s.attached → k ∈ (LTree.treeAtAnnounce ⟨true, false⟩ s (.detach k)).attached) ∧
+    (k ∉ s.attached → k ∉ (LTree.treeAtAnnounce ⟨false, true⟩ s (.attach k)).attached) :=
+  ⟨fun hk => by simp [LTree.treeAtAnnounce, hk], fun hk => by simp [LTree.treeAtAnnounce, hk]⟩
+
+/-- non-vacuity: entity 1 attached, peer 0 subscribed; the read from inside the 'removed' notification of entity 1
+    lists entity 0 only, with the announcement first it would list entity 1 as well -/
+example : (LTree.treeAtAnnounce currentOrder { (LTree.init {}) with attached := [0, 1], subs := [0] } (.detach 1)).attached = [0]
+    ∧ (LTree.treeAtAnnounce ⟨true, false⟩ { (LTree.init {}) with attached := [0, 1], subs := [0] } (.detach 1)).attached = [0, 1]
+    ∧ (LTree.treeAtAnnounce currentOrder (LTree.init {}) (.attach 2)).attached = [0, 2] := by decide
 
 end Spine.Props.C07Gen
